@@ -26,6 +26,7 @@ func init() { scenarios["tiles"] = scenarioTiles }
 // stubSumDB serves /latest and /tile/8/... for a tree of n leaves out of a fixed leaf sequence, using the
 // reference tlog functions for the server side; it records every requested path.
 type stubSumDB struct {
+	mount   string // path below which the log is served ("" = the host's root)
 	mu      sync.Mutex
 	hashes  []tlog.Hash // stored hashes for the full sequence
 	leafH   [][]byte    // RFC 6962 leaf hashes
@@ -84,6 +85,15 @@ func (s *stubSumDB) RoundTrip(r *http.Request) (*http.Response, error) {
 	s.mu.Lock()
 	defer s.mu.Unlock()
 	p := r.URL.Path
+	// the log may be mounted below a path of its host (a module proxy serves sum.golang.org under /sumdb/<name>):
+	// everything is then requested below that root, nothing beside it
+	if s.mount != "" {
+		if !strings.HasPrefix(p, s.mount+"/") {
+			s.reqs = append(s.reqs, "OUTSIDE-ROOT:"+p)
+			return &http.Response{StatusCode: 404, Status: "404", Body: io.NopCloser(strings.NewReader("not below the log's root")), Header: http.Header{}, Request: r}, nil
+		}
+		p = strings.TrimPrefix(p, s.mount)
+	}
 	s.reqs = append(s.reqs, p)
 	mk := func(code int, body []byte) (*http.Response, error) {
 		return &http.Response{StatusCode: code, Status: fmt.Sprintf("%d", code), Body: io.NopCloser(bytes.NewReader(body)), Header: http.Header{}, Request: r}, nil
@@ -200,8 +210,18 @@ func scenarioTiles(t *traceWriter, rng *rand.Rand) {
 		sdb.mu.Unlock()
 		sw := &scriptedWitness{latest: held, logID: l.id, br: tr, cur: [3]string{"_", "_", "_"}, ret: []byte("ok\n")}
 		ctx, cancel := context.WithTimeout(context.Background(), 10*time.Second)
-		err := sumdbfeeder.FeedLog(ctx, lcfg, sw, &http.Client{Transport: sdb}, 0)
+		lc := lcfg
+		if pi%3 == 2 { // every third pair: the log is mounted below a path, configured without trailing slash
+			sdb.mu.Lock()
+			sdb.mount = "/sumdb/sum.example.org"
+			sdb.mu.Unlock()
+			lc.URL = "http://sumdb.invalid/sumdb/sum.example.org"
+		}
+		err := sumdbfeeder.FeedLog(ctx, lc, sw, &http.Client{Transport: sdb}, 0)
 		cancel()
+		sdb.mu.Lock()
+		sdb.mount = ""
+		sdb.mu.Unlock()
 		// reference: which tiles does the proof need, and what is the proof
 		ref := refTileReader{s: sdb, paths: map[string]bool{}}
 		th := sdb.treeHash(int64(p.to))
